@@ -354,10 +354,14 @@ class SpatialTransform(DeviceProperty, Module, metaclass=ABCMeta):
             # Displacement field with domain different from output domain
             # - Use F.grid_sample() to resample displacement field and adjust vectors.
             if grid != self.grid() or align_corners != self.align_corners():
-                flow = FlowFields(data, grid=self.grid().reshape(data.shape[2:]))
-                flow = flow.sample(grid, padding=PaddingMode.BORDER)
-                flow = flow.axes(Axes.from_grid(grid))
-                data = flow.tensor()
+                # Sample vectors at the points of the output grid and express them with respect to its cube.
+                # Plain tensor operations (no FlowFields wrapper, which would detach) keep the result differentiable.
+                axes, to_axes = self.axes(), Axes.from_grid(grid)
+                x = grid.coords(device=data.device).unsqueeze(0)
+                x = grid.transform_points(x, axes=to_axes, to_grid=self.grid(), to_axes=axes, decimals=None)
+                u = U.sample_flow(data, x.type(data.dtype), align_corners=self.align_corners())
+                u = self.grid().transform_vectors(u, axes=axes, to_grid=grid, to_axes=to_axes)
+                data = U.move_dim(u, -1, 1)
             # Displacement field with same domain as output grid, but differing size
             # - Use F.interpolate() to resize displacement field.
             elif grid.shape != data.shape[2:]:
